@@ -132,9 +132,54 @@ def evaluate(ctx, case, obs, answers):
             ctx.coverage["traces_validated_against_impl"] += 1
 
 
+def threaded_sample(ctx, n):
+    """Blocking emit with the event loop in a background thread (real time, small sample): the
+    exception of a failing function / asynchronous consumer must be raised by emit()."""
+    import asyncio
+    from streamz import Stream
+    for i in range(n):
+        where = ("map", "async-sink", "sync-sink", "async-sink-after-rate-limit")[i % 4]
+        fail_on = i % 3
+
+        def boom(x):
+            if x == fail_on:
+                raise ValueError("user function failed")
+            return x
+
+        async def aboom(x):
+            await asyncio.sleep(0.002)
+            return boom(x)
+
+        src = Stream(asynchronous=False)
+        got = []
+        if where == "map":
+            src.map(boom).sink(got.append)
+        elif where == "sync-sink":
+            src.sink(boom)
+        elif where == "async-sink":
+            src.sink(aboom)
+        else:
+            src.rate_limit(0.001).sink(aboom)
+        case = {"threaded": True, "where": where, "fail_on": fail_on}
+        ctx.case(case, nontrivial=True)
+        ctx.count("threaded:" + where)
+        for x in range(3):
+            raised = None
+            try:
+                src.emit(x)
+            except Exception as e:  # noqa: BLE001
+                raised = type(e).__name__
+            if x == fail_on and raised != "ValueError":
+                ctx.failure("threaded-exception-lost:" + where,
+                            "blocking emit(%d) returned normally (raised=%r) although the %s raised ValueError" % (x, raised, where), case)
+            if x != fail_on and raised:
+                ctx.failure("threaded-spurious-exception:" + where, "blocking emit(%d) raised %s" % (x, raised), case)
+
+
 def run(ctx):
     from .. import common, gen_graph
     ctx.audit()
+    threaded_sample(ctx, 12 if not ctx.thorough() else 60)
     rng = ctx.rng
     n = 300 if not ctx.thorough() else 10000
     batch = []
@@ -176,6 +221,10 @@ def replay(ctx, data):
     from .. import common
     ctx.audit()
     case = data["case"]
+    if case.get("threaded"):
+        threaded_sample(ctx, 12)
+        ctx.coverage["rule"] = "replay: threaded sample"
+        return
     obs = graphcheck.rerun(case, flavour=case.get("flavour", "future"))
     evaluate(ctx, case, obs, common.lean_driver("Graph", graphcheck.model_lines(case)))
     ctx.coverage["rule"] = "replay of one recorded case"
